@@ -49,3 +49,23 @@ for m, q, f in ctx.repo.functions():
         out['%s.%s' % (m.name, q)] = d
 json.dump(out, open(callsigs.GUARDS_REF, 'w'), indent=0, sort_keys=True)
 print(sum(len(v) for v in out.values()), 'guards in', len(out), 'functions')
+# per-element loop stores reference
+out = {}
+for m, q, f in ctx.repo.functions():
+    if m.name in ('cencoding', 'speedups'):
+        continue
+    d = callsigs.loop_stores(f)
+    if d:
+        out['%s.%s' % (m.name, q)] = d
+json.dump(out, open(callsigs.LOOPSTORES_REF, 'w'), indent=0, sort_keys=True)
+print(sum(len(v) for v in out.values()), 'loop stores in', len(out), 'functions')
+# guards of call statements reference
+out = {}
+for m, q, f in ctx.repo.functions():
+    if m.name in ('cencoding', 'speedups'):
+        continue
+    d = callsigs.call_stmt_guards(f)
+    if d:
+        out['%s.%s' % (m.name, q)] = d
+json.dump(out, open(callsigs.STMTGUARDS_REF, 'w'), indent=0, sort_keys=True)
+print(sum(len(v) for v in out.values()), 'call statements in', len(out), 'functions')
